@@ -59,7 +59,9 @@ def _toplevel(ctx):
     return VFunc(node, MODULE, '_await_descriptor_upload', pyfunc=None)
 
 
-def unit_hs_desc(kind):
+def unit_hs_desc(kind, after_early_event=False):
+    """after_early_event: the listener has already seen one event while the service had no address yet (before its
+    ADD_ONION reply / hostname file); the address is known by the time of the event under test"""
     def run(ctx):
         for q in FUNCS:
             ctx.fn(MODULE, q)
@@ -143,7 +145,32 @@ def unit_hs_desc(kind):
         ctx.cover('pre_ours', p, ours)
         ctx.region(F_UPLOADED_FOREIGN, z3.Not(ours)) if kind == 'UPLOADED' else None
         ctx.models.first_await = None
-        outs = ex.call(p, hs, [VStr(evt)], {})
+        starts = [p]
+        if after_early_event:
+            # an earlier event, delivered while the service had no address: it belongs to somebody else by definition
+            # (UPLOADED is left to the single-event units because of the listed finding)
+            known = p.heap[('g', 'onion_hostname')]
+            p.heap[('g', 'onion_hostname')] = NONE
+            starts = []
+            first = []
+            for early in ('UPLOAD oxxxxxxxxxxxxxxx UNKNOWN $HSDIR0000000000000000000000000000000000 x', 'FAILED oxxxxxxxxxxxxxxx UNKNOWN $HSDIR0000000000000000000000000000000000 REASON=UPLOAD_REJECTED'):
+                first.extend(ex.call(p.fork(), hs, [VStr(early)], {}))
+            for q0, r0 in first:
+                if isinstance(r0, Raise):
+                    ctx.oblige('no_exception_from_the_earlier_event', q0, B(False))
+                    continue
+                H0 = q0.heap
+                same = zand(*[H0[('l', fr.fid, n)].t == x.t for n, x in (('attempted_uploads', att), ('confirmed_uploads', conf), ('failed_uploads', fail))])
+                ctx.oblige('post.event_before_the_address_is_known_changes_nothing', q0, zand(same, B(len(ctx.models.glog(q0, 'fired')) == 0)),
+                           clause='upload events that belong to other services never complete or fail it')
+                q0.heap[('g', 'onion_hostname')] = known
+                q0.assume(z3.Bool('onion_has_hostname'))
+                for n, x in (('attempted_uploads', att), ('confirmed_uploads', conf), ('failed_uploads', fail)):
+                    q0.heap[('l', fr.fid, n)] = x          # (equal by the obligation above)
+                starts.append(q0)
+        outs = []
+        for p_ in starts:
+            outs.extend(ex.call(p_, hs, [VStr(evt)], {}))
         for q, r in outs:
             if isinstance(r, Raise):
                 cname = r.exc.cls.__name__ if isinstance(r.exc, VInst) else '?'
@@ -320,7 +347,8 @@ def make_models_for(unit_name):
 
 
 def units():
-    return [('C15/hs_desc@%s' % k, unit_hs_desc(k)) for k in ('UPLOAD', 'UPLOADED', 'FAILED')] + [('C15/coroutine', unit_coroutine())] + \
+    return [('C15/hs_desc@%s' % k, unit_hs_desc(k)) for k in ('UPLOAD', 'UPLOADED', 'FAILED')] + \
+        [('C15/hs_desc@%s/after_early_event' % k, unit_hs_desc(k, True)) for k in ('UPLOAD', 'UPLOADED', 'FAILED')] + [('C15/coroutine', unit_coroutine())] + \
         [('C15/%s.create' % c, unit_fs_create(c)) for c in ('FilesystemOnionService', 'FilesystemAuthenticatedOnionService')]
 
 
